@@ -490,6 +490,11 @@ func (c *candidateBase) TypePreference() uint16 {
 			tcpPriorityOffset = c.agent().tcpPriorityOffset
 		}
 
+		if tcpPriorityOffset > pref {
+			// The offset is a reduction of the type preference; never wrap around below zero.
+			return 0
+		}
+
 		pref -= tcpPriorityOffset
 	}
 
